@@ -1144,7 +1144,7 @@ Section Scan.
         handle s i a = (s', Cont, eh) -> U s' (t ++ EC (member s i) wkr :: EAns a :: strip eh).
     Hypothesis U_stop : forall s t i a s' r o eh wkr, U s t -> awaited s i = true -> i < slots s ->
         handle s i a = (s', Stop r o, eh) -> T (after_stop s') (t ++ EC (member s i) wkr :: EAns a :: strip eh ++ [EEndR o]).
-    Hypothesis T_order : forall s is s1 t, order s = Some (is, s1) -> T s t -> U s1 t.
+    Hypothesis T_order : forall s is s1 t, pre_exit s = None -> order s = Some (is, s1) -> T s t -> U s1 t.   (* order is only reached past the pre-loop exit *)
     Hypothesis U_finish : forall s t, U s t ->
         match snd (finish s) with Some o => T (fst (finish s)) (t ++ [EEndR o]) | None => T (fst (finish s)) (t ++ [EEndP]) end.
     Hypothesis T_pre : forall s t o, T s t -> pre_exit s = Some o -> T s (t ++ [EEndR o]).
@@ -1248,7 +1248,7 @@ Section Scan.
       destruct (pre_any (cs w0) && negb (any_ready w0)) eqn:Epa.
       { apply andb_true_iff in Epa as [Epa _]. intros _. cbn. rewrite !strip_app. cbn. rewrite app_nil_r. apply T_endp; [exact Epre|exact Epa|exact HT]. }
       destruct (order (cs w0)) as [[is s1]|] eqn:Eo; [|apply Hunw].
-      assert (HT1 : UL (set_cs w0 s1)) by (split; [exact Hd|]; cbn; eapply T_order; eauto; apply HT0).
+      assert (HT1 : UL (set_cs w0 s1)) by (split; [exact Hd|]; cbn; eapply T_order; [exact Epre|exact Eo|apply HT0]).
       assert (Hin : forall i, In i is -> i < N (set_cs w0 s1)).
       { intros i Hi. unfold N; cbn. rewrite (order_slots (cs w0) is s1 Eo). apply (order_bound (cs w0) is s1 (T_Q _ _ (proj2 HT0)) Eo i Hi). }
       pose proof (scan_T (set_cs w0 s1) is pid Hin HT1) as Hg.
@@ -2186,6 +2186,482 @@ Section Scan.
     g_retpend w = true -> g_quiet w = true -> i < N w -> aw w i = true -> polled w i = true.
   Proof. intros HI w Hr Hq Hi Ha. destruct (Inv_run ops w0 HI) as (_ & _ & HA). apply (HA Hr Hq); auto. Qed.
 
+  (* ------------- sibling progress (C20, second sentence) -------------
+     Selective strategy.  If, when a poll begins, child j is awaited and its readiness bit is set (it was woken after its last Pending, or has
+     never been polled: I2 / I3), then in that very poll either j is polled, or the poll delivers a result before the scan reaches j, or it
+     unwinds - whatever every other child answers, in particular a sibling that stays Pending for ever.  *)
+  Section Progress.
+    Definition subpolled (j: nat) (t: list ev) := exists m, In (EC m (WSub j)) t.
+    Definition ext (w w': world) := exists u, tr w' = tr w ++ u.
+    Definition keeps (j: nat) (w w': world) := sel w' = sel w /\ (nth j (bits w) false = true -> nth j (bits w') false = true) /\ ext w w'.
+    Lemma ext_refl w : ext w w. Proof. exists []. rewrite app_nil_r. reflexivity. Qed.
+    Lemma ext_trans a b c : ext a b -> ext b c -> ext a c.
+    Proof. intros [u Hu] [v Hv]. exists (u ++ v). rewrite Hv, Hu, app_assoc. reflexivity. Qed.
+    Lemma keeps_refl j w : keeps j w w. Proof. split; [reflexivity|]. split; [auto|apply ext_refl]. Qed.
+    Lemma keeps_trans j a b c : keeps j a b -> keeps j b c -> keeps j a c.
+    Proof. intros (A1 & A2 & A3) (B1 & B2 & B3). split; [congruence|]. split; [auto|eapply ext_trans; eauto]. Qed.
+    Lemma keeps_emit j w es : keeps j w (emit w es).
+    Proof. split; [reflexivity|]. split; [auto|]. exists es. reflexivity. Qed.
+
+    Lemma do_fire_keeps j w x : keeps j w (do_fire w x) /\ cs (do_fire w x) = cs w.
+    Proof.
+      unfold do_fire. destruct (x <? N w); [|split; [apply keeps_refl|reflexivity]].
+      destruct (nth x (bits w) true) eqn:Ex.
+      - split; [|reflexivity]. split; [reflexivity|]. split; [auto|]. exists []. cbn. rewrite app_nil_r. reflexivity.
+      - split; [|reflexivity]. split; [reflexivity|]. split.
+        + cbn. intros Hj. destruct (Nat.eq_dec x j) as [->|Hne].
+          * exfalso. assert (Hl : j < length (bits w)).
+            { destruct (Nat.lt_ge_cases j (length (bits w))) as [L|G]; auto. rewrite nth_overflow in Hj by exact G. discriminate. }
+            rewrite (nth_indep _ true false Hl) in Ex. congruence.
+          * rewrite (nth_upd_other _ x j) by exact Hne. exact Hj.
+        + eexists. cbn. reflexivity.
+    Qed.
+    Lemma fire_handle_keeps j w c k : keeps j w (fire_handle w c k) /\ cs (fire_handle w c k) = cs w.
+    Proof.
+      unfold fire_handle. destruct (nth_error (nth c (handed w) []) k) as [[slot|pid]|].
+      - destruct (do_fire_keeps j (emit w [EF c k]) slot) as [A B]. split; [|rewrite B; reflexivity].
+        eapply keeps_trans; [apply keeps_emit|exact A].
+      - split; [apply keeps_emit|reflexivity].
+      - split; [apply keeps_refl|reflexivity].
+    Qed.
+    Lemma fires_of_keeps j w me hs : keeps j w (fires_of w me hs) /\ cs (fires_of w me hs) = cs w.
+    Proof.
+      revert w. induction hs as [|h r IH]; intros w; cbn [fires_of]; [split; [apply keeps_refl|reflexivity]|].
+      destruct (match h with HSelf => (me, length (nth me (handed w) []) - 1) | HOf c k => (c, k) end) as [c k].
+      destruct (fire_handle_keeps j w c k) as [A B]. destruct (IH (fire_handle w c k)) as [A' B'].
+      split; [eapply keeps_trans; eauto|congruence].
+    Qed.
+
+    Definition vworld (r: vres) : world := match r with VCont w | VPending w | VReady w _ | VAbort w => w end.
+
+    (* one child poll: the trace gains this child's poll event; a sibling's bit and awaited status survive a `Cont` *)
+    Lemma poll_child_progress w i pid : sel w = true ->
+      (exists u, tr (vworld (poll_child w i pid)) = tr w ++ EC (member (cs w) i) (WSub i) :: u) /\
+      (forall j w', j <> i -> poll_child w i pid = VCont w' ->
+         sel w' = true /\ (nth j (bits w) false = true -> nth j (bits w') false = true) /\ aw w' j = aw w j).
+    Proof.
+      intros Hsel. unfold poll_child. rewrite Hsel.
+      destruct (pop w (member (cs w) i)) as [stp sc'].
+      match goal with |- context[fires_of ?W _ _] => set (w1 := W) end.
+      assert (T1 : tr w1 = tr w ++ [EC (member (cs w) i) (WSub i)]) by reflexivity.
+      assert (C1 : cs w1 = cs w) by reflexivity.
+      assert (S1 : sel w1 = true) by exact Hsel.
+      assert (B1 : bits w1 = bits w) by reflexivity.
+      set (w2 := fires_of w1 (member (cs w) i) (fires stp)).
+      destruct (handle (cs w2) i (answer stp)) as [[s' a] eh] eqn:Eh.
+      split.
+      - destruct (fires_of_keeps 0 w1 (member (cs w) i) (fires stp)) as [(_ & _ & [u Hu]) _]. fold w2 in Hu.
+        destruct a as [|r o|]; cbn [vworld].
+        + eexists. cbn. rewrite Hu, T1, <- !app_assoc. cbn. reflexivity.
+        + unfold apply_rearm. eexists.
+          destruct (sel (set_cs (emit w2 (EAns (answer stp) :: eh)) s')); [destruct r|]; cbn; rewrite Hu, T1, <- !app_assoc; cbn; reflexivity.
+        + eexists. cbn. rewrite Hu, T1, <- !app_assoc. cbn. reflexivity.
+      - intros j w' Hne E. destruct a as [|r o|]; try discriminate. inversion E; subst w'; clear E.
+        destruct (fires_of_keeps j w1 (member (cs w) i) (fires stp)) as [(KS & KB & _) KC]. fold w2 in KS, KB, KC.
+        cbn. split; [congruence|]. split; [rewrite <- B1; exact KB|].
+        unfold aw. cbn. rewrite (handle_cont_other _ _ _ _ _ Eh j Hne). rewrite KC, C1. reflexivity.
+    Qed.
+
+    Lemma visit_ext w i pid : sel w = true -> ext w (vworld (visit w i pid)).
+    Proof.
+      intros Hsel. unfold visit. destruct (any_per_iter && negb (any_ready w)); [apply ext_refl|].
+      unfold clear_bit. rewrite Hsel.
+      assert (X : forall b, ext w (vworld (poll_child (set_bits w b) i pid))).
+      { intros b. destruct (poll_child_progress (set_bits w b) i pid Hsel) as [[u Hu] _]. eexists. rewrite Hu. reflexivity. }
+      assert (Y : forall b, ext w (set_bits w b)) by (intros b; exists []; cbn; rewrite app_nil_r; reflexivity).
+      destruct clear_first.
+      - destruct (nth i (bits w) false); [|apply ext_refl]. destruct (awaited (cs w) i); [apply X|apply Y].
+      - destruct (awaited (cs w) i); [|apply ext_refl]. destruct (nth i (bits w) false); [apply X|apply ext_refl].
+    Qed.
+    Lemma visit_sel w i pid w' : sel w = true -> visit w i pid = VCont w' -> sel w' = true.
+    Proof.
+      intros Hsel. unfold visit. destruct (any_per_iter && negb (any_ready w)); [discriminate|].
+      unfold clear_bit. rewrite Hsel.
+      assert (X : forall b, poll_child (set_bits w b) i pid = VCont w' -> sel w' = true).
+      { intros b E. unfold poll_child in E. destruct (pop (set_bits w b) (member (cs (set_bits w b)) i)) as [stp sc'].
+        match type of E with context[fires_of ?W ?M ?F] => destruct (fires_of_keeps 0 W M F) as [(KS & _) _]; set (w2 := fires_of W M F) in * end.
+        destruct (handle (cs w2) i (answer stp)) as [[s' a] eh]. destruct a; try discriminate. inversion E. cbn. rewrite KS. exact Hsel. }
+      destruct clear_first.
+      - destruct (nth i (bits w) false); [|intros E; inversion E; subst; exact Hsel].
+        destruct (awaited (cs w) i); [apply X|intros E; inversion E; exact Hsel].
+      - destruct (awaited (cs w) i); [|intros E; inversion E; subst; exact Hsel].
+        destruct (nth i (bits w) false); [apply X|intros E; inversion E; subst; exact Hsel].
+    Qed.
+    Lemma scan_ext is : forall w pid, sel w = true -> ext w (vworld (scan w is pid)).
+    Proof.
+      induction is as [|i rest IH]; intros w pid Hsel; cbn [scan]; [apply ext_refl|].
+      pose proof (visit_ext w i pid Hsel) as Hv. pose proof (visit_sel w i pid) as Hs.
+      destruct (visit w i pid) as [w'|w'|w' o|w']; cbn [vworld] in *; auto.
+      eapply ext_trans; [exact Hv|]. apply IH. apply Hs; auto.
+    Qed.
+
+    Lemma bit_any_ready w j : sel w = true -> nth j (bits w) false = true -> any_ready w = true.
+    Proof.
+      intros Hsel Hb. unfold any_ready. rewrite Hsel. apply existsb_exists. exists true. split; [|reflexivity].
+      rewrite <- Hb. apply nth_In. destruct (Nat.lt_ge_cases j (length (bits w))) as [L|G]; auto. rewrite nth_overflow in Hb by exact G. discriminate.
+    Qed.
+
+    (* a visit of another slot leaves j signalled and awaited *)
+    Lemma visit_other w i pid j w' : sel w = true -> j <> i -> visit w i pid = VCont w' ->
+      (nth j (bits w) false = true -> nth j (bits w') false = true) /\ aw w' j = aw w j.
+    Proof.
+      intros Hsel Hne. unfold visit. destruct (any_per_iter && negb (any_ready w)); [discriminate|].
+      unfold clear_bit. rewrite Hsel.
+      assert (X : poll_child (set_bits w (upd (bits w) i false)) i pid = VCont w' ->
+                  (nth j (bits w) false = true -> nth j (bits w') false = true) /\ aw w' j = aw w j).
+      { intros E. destruct (poll_child_progress (set_bits w (upd (bits w) i false)) i pid Hsel) as [_ H].
+        destruct (H j w' Hne E) as (_ & HB & HA). split; [|exact HA].
+        intros Hb. apply HB. cbn. rewrite (nth_upd_other _ i j) by (intro; apply Hne; auto). exact Hb. }
+      assert (Y : VCont (set_bits w (upd (bits w) i false)) = VCont w' ->
+                  (nth j (bits w) false = true -> nth j (bits w') false = true) /\ aw w' j = aw w j).
+      { intros E. inversion E; subst w'. cbn. split; [|reflexivity]. intros Hb. rewrite (nth_upd_other _ i j) by (intro; apply Hne; auto). exact Hb. }
+      assert (Z : VCont w = VCont w' -> (nth j (bits w) false = true -> nth j (bits w') false = true) /\ aw w' j = aw w j).
+      { intros E. inversion E; subst w'. auto. }
+      destruct clear_first.
+      - destruct (nth i (bits w) false); [|exact Z]. destruct (awaited (cs w) i); [exact X|exact Y].
+      - destruct (awaited (cs w) i); [|exact Z]. destruct (nth i (bits w) false); [exact X|exact Z].
+    Qed.
+
+    Lemma scan_progress is : forall w pid j, sel w = true -> In j is -> aw w j = true -> nth j (bits w) false = true ->
+      match scan w is pid with
+      | VCont w' | VPending w' => exists u, tr w' = tr w ++ u /\ subpolled j u
+      | _ => True
+      end.
+    Proof.
+      induction is as [|i rest IH]; intros w pid j Hsel Hin Ha Hb; [destruct Hin|]. cbn [scan].
+      destruct (Nat.eq_dec i j) as [->|Hne].
+      - (* the scan has reached j: it is polled now *)
+        assert (E : visit w j pid = poll_child (set_bits w (upd (bits w) j false)) j pid).
+        { unfold visit. rewrite (bit_any_ready w j Hsel Hb), andb_false_r. unfold clear_bit. rewrite Hsel, Hb. unfold aw in Ha. rewrite Ha.
+          destruct clear_first; reflexivity. }
+        rewrite E. destruct (poll_child_progress (set_bits w (upd (bits w) j false)) j pid Hsel) as [[u Hu] _].
+        pose proof (visit_sel w j pid) as Hs. rewrite E in Hs.
+        destruct (poll_child (set_bits w (upd (bits w) j false)) j pid) as [w'|w'|w' o|w'] eqn:Ep; cbn [vworld] in Hu; auto.
+        + destruct (scan_ext rest w' pid (Hs w' Hsel eq_refl)) as [v Hv].
+          assert (P : subpolled j ((EC (member (cs (set_bits w (upd (bits w) j false))) j) (WSub j) :: u) ++ v)).
+          { eexists. apply in_or_app. left. left. reflexivity. }
+          destruct (scan w' rest pid) as [w2|w2|w2 o|w2]; cbn [vworld] in Hv; auto;
+            (eexists; split; [rewrite Hv, Hu; cbn [tr set_bits]; rewrite <- app_assoc; reflexivity|exact P]).
+        + eexists. split; [exact Hu|]. eexists. left. reflexivity.
+      - destruct Hin as [->|Hin]; [congruence|].
+        pose proof (visit_ext w i pid Hsel) as [u Hu]. pose proof (visit_sel w i pid) as Hs.
+        pose proof (visit_other w i pid j) as Ho.
+        destruct (visit w i pid) as [w'|w'|w' o|w'] eqn:Ev; cbn [vworld] in Hu; auto.
+        + destruct (Ho w' Hsel (fun e => Hne (eq_sym e)) eq_refl) as [HB HA].
+          specialize (IH w' pid j (Hs w' Hsel eq_refl) Hin (eq_trans HA Ha) (HB Hb)).
+          destruct (scan w' rest pid) as [w2|w2|w2 o|w2]; auto;
+            (destruct IH as (v & Hv & [m Hm]); exists (u ++ v); split; [rewrite Hv, Hu, app_assoc; reflexivity|exists m; apply in_or_app; right; exact Hm]).
+        + (* the "nothing is ready any more" exit is not taken while j is signalled *)
+          exfalso. unfold visit in Ev. rewrite (bit_any_ready w j Hsel Hb), andb_false_r in Ev.
+          unfold clear_bit in Ev. rewrite Hsel in Ev.
+          assert (X : forall b r, poll_child (set_bits w b) i pid = r -> r <> VPending w').
+          { intros b r E. subst r. unfold poll_child. destruct (pop (set_bits w b) (member (cs (set_bits w b)) i)) as [stp sc'].
+            match goal with |- context[handle ?S i ?A] => destruct (handle S i A) as [[s' a] eh] end. destruct a; discriminate. }
+          destruct clear_first.
+          * destruct (nth i (bits w) false); [|discriminate]. destruct (awaited (cs w) i); [eapply X; eauto|discriminate].
+          * destruct (awaited (cs w) i); [|discriminate]. destruct (nth i (bits w) false); [eapply X; eauto|discriminate].
+    Qed.
+
+    Theorem poll_progress w pid np j : sel w = true -> Q (cs w) -> j < N w -> aw w j = true -> nth j (bits w) false = true ->
+      exists u, tr (poll w pid np) = tr w ++ EB pid :: u /\ (subpolled j u \/ (exists o, In (EEndR o) u) \/ In EEndX u).
+    Proof.
+      intros Hsel HQ Hj Ha Hb. unfold poll.
+      assert (Hmf : forall w' o, tr (mark_final w' o) = tr w') by (intros w' o; unfold mark_final; destruct (final o); reflexivity).
+      destruct (pre_exit (cs w)) as [o|].
+      { exists [EEndR o]. rewrite Hmf. cbn. split; [reflexivity|]. right. left. exists o. left. reflexivity. }
+      set (w0 := begin_poll w pid np).
+      assert (S0 : sel w0 = true) by exact Hsel.
+      assert (B0 : nth j (bits w0) false = true) by exact Hb.
+      rewrite (bit_any_ready w0 j S0 B0), andb_false_r.
+      assert (T0 : tr w0 = tr w ++ [EB pid]) by reflexivity.
+      destruct (order (cs w0)) as [[is s1]|] eqn:Eo.
+      2:{ eexists. unfold unwind. cbn. rewrite <- app_assoc. cbn. split; [reflexivity|]. right. right.
+          right. apply in_or_app. right. left. reflexivity. }
+      assert (Hin : In j is) by (apply (order_cover (cs w0) is s1 HQ Eo j Hj Ha)).
+      assert (Ha1 : aw (set_cs w0 s1) j = true) by (unfold aw; cbn; rewrite (order_aw _ _ _ Eo j); exact Ha).
+      pose proof (scan_progress is (set_cs w0 s1) pid j S0 Hin Ha1 B0) as Hp.
+      destruct (scan_ext is (set_cs w0 s1) pid S0) as [v Hv].
+      destruct (scan (set_cs w0 s1) is pid) as [w1|w1|w1 o|w1]; cbn [vworld] in Hv.
+      - destruct Hp as (u & Hu & Hsub). destruct (finish (cs w1)) as [s2 [x|]].
+        + exists (u ++ [EEndR x]). rewrite Hmf. cbn. rewrite Hu. cbn. rewrite <- !app_assoc. cbn. split; [reflexivity|].
+          left. destruct Hsub as [m Hm]. exists m. apply in_or_app. left. exact Hm.
+        + exists (u ++ [EEndP]). cbn. rewrite Hu. cbn. rewrite <- !app_assoc. cbn. split; [reflexivity|].
+          left. destruct Hsub as [m Hm]. exists m. apply in_or_app. left. exact Hm.
+      - destruct Hp as (u & Hu & Hsub). exists (u ++ [EEndP]). cbn. rewrite Hu. cbn. rewrite <- !app_assoc. cbn. split; [reflexivity|].
+        left. destruct Hsub as [m Hm]. exists m. apply in_or_app. left. exact Hm.
+      - exists (v ++ [EEndR o]). rewrite Hmf. cbn. rewrite Hv. cbn. rewrite <- !app_assoc. cbn. split; [reflexivity|].
+        right. left. exists o. apply in_or_app. right. left. reflexivity.
+      - exists (v ++ ED :: drop_all (cs w1) ++ [EEndX]). unfold unwind. cbn. rewrite Hv. cbn. rewrite <- !app_assoc. cbn. split; [reflexivity|].
+        right. right. apply in_or_app. right. right. apply in_or_app. right. left. reflexivity.
+    Qed.
+
+    (* over reachable states: a child that has signalled since its last poll (or has never been polled) is polled in the next poll *)
+    Theorem sibling_progress w0 ops o j : Inv w0 -> (o = OPollFresh \/ o = OPollSame) -> let w := run_ops w0 ops in
+      finished w = false -> dropped w = false -> j < N w -> aw w j = true -> (fired w j = true \/ polled w j = false) ->
+      exists pid u, tr (step_op w o) = tr w ++ EB pid :: u /\ (subpolled j u \/ (exists r, In (EEndR r) u) \/ In EEndX u).
+    Proof.
+      intros HI Ho w Hf Hd Hj Ha Hs. destruct (Inv_run ops w0 HI) as ((Hwf & HQ & H2 & H3 & _) & _). fold w in Hwf, HQ, H2, H3.
+      assert (Hb : nth j (bits w) false = true) by (destruct Hs as [Hs|Hs]; [apply (H2 j Hj Ha Hs)|apply (H3 j Hj Ha Hs)]).
+      assert (X : forall pid np, exists pid' u, tr (poll w pid np) = tr w ++ EB pid' :: u /\ (subpolled j u \/ (exists r, In (EEndR r) u) \/ In EEndX u)).
+      { intros pid np. exists pid. apply poll_progress; auto. apply Hwf. }
+      destruct Ho as [-> | ->]; cbn [step_op]; rewrite Hf, Hd; cbn [orb]; apply X.
+    Qed.
+  End Progress.
+
+  (* ------------- bounded progress (towards C01's "consequently ... resolves once its children have made the progress that permits it") -------------
+     Fixed combinators (member = slot), selective strategy, children whose scripts never panic.  One poll: it does not unwind, no script grows, and
+     if it returns Pending then every child that was awaited and signalled when the poll began has consumed one step of its script. *)
+  Section Live.
+    Hypothesis member_id : forall s i, member s i = i.
+    Hypothesis abort_panic : forall s i a s' e, handle s i a = (s', Abort, e) -> a = APanic.
+    Hypothesis order_some : forall s, Q s -> order s <> None.
+
+    Definition rem (w: world) (m: nat) := length (nth m (scripts w) []).
+    Definition nopanic (sc: list (list step)) := forall m st, In st (nth m sc []) -> answer st <> APanic.
+    Definition HT (w: world) := length (handed w) = N w /\ length (g_polled w) = N w /\
+      forall c, c < N w -> (forall h, In h (nth c (handed w) []) -> h = WSub c) /\ (polled w c = true -> nth c (handed w) [] <> []).
+    Definition LiveI (w: world) := sel w = true /\ nopanic (scripts w) /\ HT w.
+
+    Lemma do_fire_live w j : cs (do_fire w j) = cs w /\ sel (do_fire w j) = sel w /\ scripts (do_fire w j) = scripts w /\
+      handed (do_fire w j) = handed w /\ g_polled (do_fire w j) = g_polled w /\ dropped (do_fire w j) = dropped w /\ finished (do_fire w j) = finished w.
+    Proof. unfold do_fire. destruct (j <? N w); [|repeat split]. destruct (nth j (bits w) true); repeat split. Qed.
+    Lemma fire_handle_live w c k : cs (fire_handle w c k) = cs w /\ sel (fire_handle w c k) = sel w /\ scripts (fire_handle w c k) = scripts w /\
+      handed (fire_handle w c k) = handed w /\ g_polled (fire_handle w c k) = g_polled w /\ dropped (fire_handle w c k) = dropped w /\
+      finished (fire_handle w c k) = finished w.
+    Proof.
+      unfold fire_handle. destruct (nth_error (nth c (handed w) []) k) as [[slot|pid]|]; [|repeat split|repeat split].
+      destruct (do_fire_live (emit w [EF c k]) slot) as (A & B & C & D & E & F & G). rewrite A, B, C, D, E, F, G. repeat split.
+    Qed.
+    Lemma fires_of_live w me hs : cs (fires_of w me hs) = cs w /\ sel (fires_of w me hs) = sel w /\ scripts (fires_of w me hs) = scripts w /\
+      handed (fires_of w me hs) = handed w /\ g_polled (fires_of w me hs) = g_polled w /\ dropped (fires_of w me hs) = dropped w /\
+      finished (fires_of w me hs) = finished w.
+    Proof.
+      revert w. induction hs as [|h r IH]; intros w; cbn [fires_of]; [repeat split|].
+      destruct (match h with HSelf => (me, length (nth me (handed w) []) - 1) | HOf c k => (c, k) end) as [c k].
+      destruct (fire_handle_live w c k) as (A & B & C & D & E & F & G). destruct (IH (fire_handle w c k)) as (A' & B' & C' & D' & E' & F' & G').
+      repeat split; congruence.
+    Qed.
+    Lemma LiveI_frame w w' : cs w' = cs w -> sel w' = sel w -> scripts w' = scripts w -> handed w' = handed w -> g_polled w' = g_polled w ->
+      LiveI w -> LiveI w'.
+    Proof.
+      intros A B C D E (H1 & H2 & H3 & H4 & H5). unfold LiveI, HT, polled, N in *. rewrite A, B, C, D, E. repeat split; auto; apply H5; auto.
+    Qed.
+
+    Lemma pop_nopanic w m : nopanic (scripts w) -> answer (fst (pop w m)) <> APanic /\ nopanic (snd (pop w m)).
+    Proof.
+      intros Hn. unfold pop. destruct (nth m (scripts w) []) as [|x rest] eqn:E; cbn [fst snd]; [split; [discriminate|exact Hn]|].
+      split; [apply (Hn m); rewrite E; left; reflexivity|].
+      intros k st Hin. destruct (Nat.eq_dec m k) as [->|Hne].
+      - assert (Hl : k < length (scripts w)).
+        { destruct (Nat.lt_ge_cases k (length (scripts w))) as [L|G]; auto. rewrite nth_overflow in E by exact G. discriminate. }
+        rewrite nth_upd_same in Hin by exact Hl. apply (Hn k). rewrite E. right. exact Hin.
+      - rewrite nth_upd_other in Hin by exact Hne. apply (Hn k). exact Hin.
+    Qed.
+    Lemma pop_rem w m : (forall k, k <> m -> length (nth k (snd (pop w m)) []) = rem w k) /\ length (nth m (snd (pop w m)) []) = rem w m - 1.
+    Proof.
+      unfold pop, rem. destruct (nth m (scripts w) []) as [|x rest] eqn:E; cbn [snd]; [split; [auto|rewrite E; reflexivity]|].
+      assert (Hl : m < length (scripts w)).
+      { destruct (Nat.lt_ge_cases m (length (scripts w))) as [L|G]; auto. rewrite nth_overflow in E by exact G. discriminate. }
+      split; [intros k Hk; rewrite nth_upd_other by auto; reflexivity|]. rewrite nth_upd_same by exact Hl. cbn. lia.
+    Qed.
+
+    Definition awmono (w: world) (r: vres) : Prop :=
+      match r with VCont w' | VPending w' => forall k, aw w' k = true -> aw w k = true | _ => True end.
+    Definition vlive (w: world) (i: nat) (r: vres) : Prop :=
+      LiveI (vworld r) /\ N (vworld r) = N w /\ (forall k, k <> i -> rem (vworld r) k = rem w k) /\ rem (vworld r) i = rem w i - 1 /\
+      dropped (vworld r) = dropped w /\ finished (vworld r) = finished w /\ Q (cs (vworld r)) /\ awmono w r /\ (forall w', r <> VAbort w').
+
+    Lemma poll_child_live w i pid : LiveI w -> Q (cs w) -> i < N w -> aw w i = true -> vlive w i (poll_child w i pid).
+    Proof.
+      intros (Hsel & Hnp & HL & HP & HH) HQ Hi Haw. unfold poll_child. rewrite Hsel, member_id.
+      pose proof (pop_nopanic w i Hnp) as [Hans Hnp']. pose proof (pop_rem w i) as [Hro Hri].
+      destruct (pop w i) as [stp sc'] eqn:Epop. cbn [fst snd] in *.
+      match goal with |- context[fires_of ?W _ _] => set (w1 := W) end.
+      destruct (fires_of_live w1 i (fires stp)) as (A & B & C & D & E & F & G).
+      set (w2 := fires_of w1 i (fires stp)) in *.
+      assert (C1 : cs w1 = cs w) by reflexivity.
+      assert (L2 : sel w2 = true /\ nopanic (scripts w2) /\ HT w2).
+      { split; [rewrite B; exact Hsel|]. split; [rewrite C; exact Hnp'|].
+        unfold HT, polled, N. rewrite A, D, E. cbn. rewrite !upd_length. split; [exact HL|]. split; [exact HP|].
+        intros c Hc. destruct (HH c Hc) as [H1 H2]. destruct (Nat.eq_dec i c) as [->|Hne].
+        - rewrite !nth_upd_same by (unfold N in *; lia). split; [|intros _; destruct (nth c (handed w) []); discriminate].
+          intros h Hin. apply in_app_or in Hin as [Hin|[<-|[]]]; auto.
+        - rewrite !nth_upd_other by exact Hne. split; auto. }
+      pose proof (handle_slots (cs w2) i (answer stp)) as Hsl.
+      assert (HQ2 : Q (fst (fst (handle (cs w2) i (answer stp))))).
+      { apply Q_handle; rewrite A, C1; auto. }
+      destruct (handle (cs w2) i (answer stp)) as [[s' a] eh] eqn:Eh. cbn [fst] in Hsl, HQ2.
+      assert (Hfin : forall w3, cs w3 = s' -> sel w3 = sel w2 -> scripts w3 = scripts w2 -> handed w3 = handed w2 -> g_polled w3 = g_polled w2 ->
+                dropped w3 = dropped w2 -> finished w3 = finished w2 ->
+                LiveI w3 /\ N w3 = N w /\ (forall k, k <> i -> rem w3 k = rem w k) /\ rem w3 i = rem w i - 1 /\ dropped w3 = dropped w /\
+                finished w3 = finished w /\ Q (cs w3)).
+      { intros w3 E1 E2 E3 E4 E5 E6 E7. destruct L2 as (S2 & P2 & H2a & H2b & H2c).
+        split.
+        - unfold LiveI, HT, polled, N in *. rewrite E1, E2, E3, E4, E5, Hsl. repeat split; auto; apply H2c; auto.
+        - split; [unfold N; rewrite E1, Hsl, A; reflexivity|]. unfold rem. rewrite E3, C.
+          split; [exact Hro|]. split; [exact Hri|]. split; [rewrite E6, F; reflexivity|]. split; [rewrite E7, G; reflexivity|]. rewrite E1. exact HQ2. }
+      destruct a as [|r o|].
+      - destruct (Hfin (set_cs (emit w2 (EAns (answer stp) :: eh)) s')) as (X1 & X2 & X3 & X4 & X5 & X6 & X7); try reflexivity.
+        split; [exact X1|split; [exact X2|split; [exact X3|split; [exact X4|split; [exact X5|split; [exact X6|split; [exact X7|split; [|intros w' X; discriminate]]]]]]]].
+        cbn [awmono]. intros k Hk. unfold aw in *. cbn in Hk. destruct (Nat.eq_dec k i) as [->|Hne]; [exact Haw|].
+        rewrite (handle_cont_other _ _ _ _ _ Eh k Hne) in Hk. rewrite A, C1 in Hk. exact Hk.
+      - unfold apply_rearm.
+        assert (Y : forall w3, cs w3 = s' -> sel w3 = sel w2 -> scripts w3 = scripts w2 -> handed w3 = handed w2 -> g_polled w3 = g_polled w2 ->
+                dropped w3 = dropped w2 -> finished w3 = finished w2 -> vlive w i (VReady w3 o)).
+        { intros w3 E1 E2 E3 E4 E5 E6 E7. destruct (Hfin w3 E1 E2 E3 E4 E5 E6 E7) as (X1 & X2 & X3 & X4 & X5 & X6 & X7).
+          split; [exact X1|split; [exact X2|split; [exact X3|split; [exact X4|split; [exact X5|split; [exact X6|split; [exact X7|split; [exact I|intros w' X; discriminate]]]]]]]]. }
+        destruct (sel (set_cs (emit w2 (EAns (answer stp) :: eh)) s')); [destruct r|]; apply Y; reflexivity.
+      - exfalso. apply Hans. eapply abort_panic. exact Eh.
+    Qed.
+
+    Definition vlive' (w: world) (r: vres) : Prop :=
+      LiveI (vworld r) /\ N (vworld r) = N w /\ (forall k, rem (vworld r) k <= rem w k) /\ dropped (vworld r) = dropped w /\
+      finished (vworld r) = finished w /\ Q (cs (vworld r)) /\ awmono w r /\ (forall w', r <> VAbort w').
+    Lemma vlive_weaken w i r : vlive w i r -> vlive' w r.
+    Proof.
+      intros (A & B & C & D & E & F & G & H & J). split; [exact A|]. split; [exact B|]. split; [|split; [exact E|split; [exact F|split; [exact G|split; [exact H|exact J]]]]].
+      intros k. destruct (Nat.eq_dec k i) as [->|Hne]; [rewrite D; lia|rewrite (C k Hne); lia].
+    Qed.
+    Lemma vlive'_refl w : LiveI w -> Q (cs w) -> vlive' w (VCont w).
+    Proof.
+      intros H HQ. split; [exact H|]. split; [reflexivity|]. split; [intros; cbn [vworld]; lia|]. split; [reflexivity|]. split; [reflexivity|].
+      split; [exact HQ|]. split; [cbn; auto|]. intros w' X; discriminate.
+    Qed.
+
+    Lemma visit_live w i pid : LiveI w -> Q (cs w) -> i < N w ->
+      vlive' w (visit w i pid) /\
+      (nth i (bits w) false = true -> aw w i = true -> rem (vworld (visit w i pid)) i = rem w i - 1).
+    Proof.
+      intros HL HQ Hi. pose proof HL as (Hsel & _). unfold visit.
+      destruct (any_per_iter && negb (any_ready w)) eqn:Eany.
+      { split.
+        - split; [exact HL|]. split; [reflexivity|]. split; [intros; cbn [vworld]; lia|]. split; [reflexivity|]. split; [reflexivity|].
+          split; [exact HQ|]. split; [cbn; auto|]. intros w' X; discriminate.
+        - intros Hb _. exfalso. rewrite (bit_any_ready w i Hsel Hb), andb_false_r in Eany. discriminate. }
+      unfold clear_bit. rewrite Hsel.
+      assert (HLb : forall b, LiveI (set_bits w b)) by (intros b; apply (LiveI_frame w); auto).
+      assert (X : aw w i = true -> vlive' w (poll_child (set_bits w (upd (bits w) i false)) i pid) /\
+                  rem (vworld (poll_child (set_bits w (upd (bits w) i false)) i pid)) i = rem w i - 1).
+      { intros Ha. pose proof (poll_child_live (set_bits w (upd (bits w) i false)) i pid (HLb _) HQ Hi Ha) as H.
+        split; [apply (vlive_weaken _ i) in H; exact H|]. destruct H as (_ & _ & _ & D & _). exact D. }
+      assert (Y : forall b, vlive' w (VCont (set_bits w b))).
+      { intros b. split; [apply HLb|]. split; [reflexivity|]. split; [intros; cbn [vworld]; unfold rem; cbn; lia|]. split; [reflexivity|]. split; [reflexivity|].
+        split; [exact HQ|]. split; [cbn; auto|]. intros w' E; discriminate. }
+      destruct clear_first.
+      - destruct (nth i (bits w) false) eqn:Eb.
+        + destruct (awaited (cs w) i) eqn:Ea; [destruct (X Ea) as [X1 X2]; split; [exact X1|intros _ _; exact X2]|]. split; [apply Y|]. intros _ Ha. unfold aw in Ha. congruence.
+        + split; [apply vlive'_refl; auto|]. intros; discriminate.
+      - destruct (awaited (cs w) i) eqn:Ea.
+        + destruct (nth i (bits w) false) eqn:Eb; [destruct (X Ea) as [X1 X2]; split; [exact X1|intros _ _; exact X2]|]. split; [apply vlive'_refl; auto|]. intros; discriminate.
+        + split; [apply vlive'_refl; auto|]. intros _ Ha. unfold aw in Ha. congruence.
+    Qed.
+
+    Lemma scan_live is : forall w pid, LiveI w -> Q (cs w) -> (forall i, In i is -> i < N w) ->
+      vlive' w (scan w is pid) /\
+      match scan w is pid with
+      | VCont w' | VPending w' => forall j, In j is -> aw w j = true -> nth j (bits w) false = true -> rem w' j <= rem w j - 1
+      | _ => True
+      end.
+    Proof.
+      induction is as [|i rest IH]; intros w pid HL HQ Hin; cbn [scan].
+      { split; [apply vlive'_refl; auto|]. intros j []. }
+      assert (Hi : i < N w) by (apply Hin; left; reflexivity).
+      destruct (visit_live w i pid HL HQ Hi) as [(V1 & V2 & V3 & V4 & V4' & VQ & VM & V5) Vp].
+      pose proof HL as (Hsel & _).
+      pose proof (visit_other w i pid) as Ho.
+      destruct (visit w i pid) as [w'|w'|w' o|w'] eqn:Ev; cbn [vworld awmono] in *.
+      - assert (Hin' : forall j, In j rest -> j < N w') by (intros j Hj; rewrite V2; apply Hin; right; exact Hj).
+        destruct (IH w' pid V1 VQ Hin') as [(S1 & S2 & S3 & S4 & S4' & SQ & SM & S5) Sp].
+        split.
+        + split; [exact S1|]. split; [congruence|]. split; [intros k; specialize (S3 k); specialize (V3 k); lia|]. split; [congruence|]. split; [congruence|].
+          split; [exact SQ|]. split; [|exact S5].
+          destruct (scan w' rest pid) as [w2|w2|w2 o|w2]; cbn [awmono] in *; auto.
+        + destruct (scan w' rest pid) as [w2|w2|w2 o|w2]; cbn [vworld] in *; auto;
+            (intros j Hj Ha Hb; destruct (Nat.eq_dec i j) as [->|Hne];
+             [specialize (Vp Hb Ha); specialize (S3 j); lia
+             |destruct Hj as [->|Hj]; [congruence|];
+              destruct (Ho j w' Hsel (fun e => Hne (eq_sym e)) eq_refl) as [HB HA];
+              specialize (Sp j Hj (eq_trans HA Ha) (HB Hb)); specialize (V3 j); lia]).
+      - split; [split; [exact V1|split; [exact V2|split; [exact V3|split; [exact V4|split; [exact V4'|split; [exact VQ|split; [exact VM|exact V5]]]]]]]|].
+        intros j Hj Ha Hb. exfalso.
+        unfold visit in Ev. rewrite (bit_any_ready w j Hsel Hb), andb_false_r in Ev. unfold clear_bit in Ev. rewrite Hsel in Ev.
+        assert (X : forall b r, poll_child (set_bits w b) i pid = r -> r <> VPending w').
+        { intros b r E. subst r. unfold poll_child. destruct (pop (set_bits w b) (member (cs (set_bits w b)) i)) as [stp sc'].
+          match goal with |- context[handle ?S i ?A] => destruct (handle S i A) as [[s' a] eh] end. destruct a; discriminate. }
+        destruct clear_first.
+        + destruct (nth i (bits w) false); [|discriminate]. destruct (awaited (cs w) i); [eapply X; eauto|discriminate].
+        + destruct (awaited (cs w) i); [|discriminate]. destruct (nth i (bits w) false); [eapply X; eauto|discriminate].
+      - split; [split; [exact V1|split; [exact V2|split; [exact V3|split; [exact V4|split; [exact V4'|split; [exact VQ|split; [exact I|exact V5]]]]]]]|exact I].
+      - exfalso. exact (V5 w' eq_refl).
+    Qed.
+
+    Lemma LiveI_cs w s' : slots s' = N w -> LiveI w -> LiveI (set_cs w s').
+    Proof. intros E (A & B & C & D & F). unfold LiveI, HT, polled, N in *. cbn. rewrite E. repeat split; auto; apply F; auto. Qed.
+
+    Theorem poll_live w pid np : LiveI w -> Q (cs w) ->
+      let w' := poll w pid np in
+      LiveI w' /\ N w' = N w /\ (forall k, rem w' k <= rem w k) /\ dropped w' = dropped w /\
+      (g_retpend w' = true -> finished w' = finished w /\ (forall k, aw w' k = true -> aw w k = true) /\
+         forall j, j < N w -> aw w j = true -> nth j (bits w) false = true -> rem w' j <= rem w j - 1) /\
+      (g_retpend w' = false -> (forall o, final o = true) -> finished w' = true).
+    Proof.
+      intros HL HQ. cbv zeta. unfold poll.
+      assert (Hmf : forall w1 o, LiveI w1 -> LiveI (mark_final w1 o) /\ N (mark_final w1 o) = N w1 /\ (forall k, rem (mark_final w1 o) k = rem w1 k) /\
+                 dropped (mark_final w1 o) = dropped w1 /\ g_retpend (mark_final w1 o) = g_retpend w1 /\ (final o = true -> finished (mark_final w1 o) = true)).
+      { intros w1 o H. unfold mark_final. destruct (final o); [|split; [exact H|repeat split; intros; discriminate]].
+        split; [apply (LiveI_frame w1); auto|]. repeat split. }
+      pose proof HL as (Hsel & _).
+      destruct (pre_exit (cs w)) as [o|].
+      { match goal with |- context[mark_final ?W o] => destruct (Hmf W o) as (M1 & M2 & M3 & M4 & M5 & M6) end.
+        { apply (LiveI_frame w); auto. }
+        split; [exact M1|]. split; [rewrite M2; reflexivity|]. split; [intros k; rewrite M3; cbn; unfold rem; cbn; lia|].
+        split; [rewrite M4; reflexivity|]. rewrite M5. cbn. split; [intros; discriminate|]. intros _ Hf. apply M6, Hf. }
+      set (w0 := begin_poll w pid np).
+      assert (HL0 : LiveI w0) by (apply (LiveI_frame w); auto).
+      destruct (pre_any (cs w0) && negb (any_ready w0)) eqn:Epa.
+      { split; [apply (LiveI_frame w0); auto|]. split; [reflexivity|]. split; [intros; unfold rem; cbn; lia|]. split; [reflexivity|].
+        split; [|cbn; intros; discriminate]. intros _. split; [reflexivity|]. split; [auto|].
+        intros j Hj Ha Hb. exfalso. assert (B0 : nth j (bits w0) false = true) by exact Hb.
+        rewrite (bit_any_ready w0 j Hsel B0), andb_false_r in Epa. discriminate. }
+      destruct (order (cs w0)) as [[is s1]|] eqn:Eo; [|exfalso; exact (order_some (cs w0) HQ Eo)].
+      assert (HL1 : LiveI (set_cs w0 s1)) by (apply LiveI_cs; [apply (order_slots _ _ _ Eo)|exact HL0]).
+      assert (HQ1 : Q (cs (set_cs w0 s1))) by (cbn; eapply Q_order; eauto).
+      assert (Hin : forall i, In i is -> i < N (set_cs w0 s1)).
+      { intros i Hi. unfold N; cbn. rewrite (order_slots (cs w0) is s1 Eo). apply (order_bound (cs w0) is s1 HQ Eo i Hi). }
+      destruct (scan_live is (set_cs w0 s1) pid HL1 HQ1 Hin) as [(S1 & S2 & S3 & S4 & S4' & SQ & SM & S5) Sp].
+      assert (N1 : N (set_cs w0 s1) = N w) by (unfold N; cbn; apply (order_slots _ _ _ Eo)).
+      assert (D1 : dropped (set_cs w0 s1) = dropped w) by reflexivity.
+      assert (F1 : finished (set_cs w0 s1) = finished w) by reflexivity.
+      assert (R1 : forall k, rem (set_cs w0 s1) k = rem w k) by reflexivity.
+      assert (A1 : forall k, aw (set_cs w0 s1) k = aw w k) by (intros k; unfold aw; cbn; apply (order_aw _ _ _ Eo)).
+      assert (Hcov : forall j, j < N w -> aw w j = true -> In j is /\ aw (set_cs w0 s1) j = true).
+      { intros j Hj Ha. split; [apply (order_cover (cs w0) is s1 HQ Eo j Hj Ha)|]. rewrite A1. exact Ha. }
+      destruct (scan (set_cs w0 s1) is pid) as [w1|w1|w1 o|w1]; cbn [vworld awmono] in *.
+      - pose proof (finish_slots (cs w1)) as Fs. pose proof (finish_aw (cs w1)) as Fa. destruct (finish (cs w1)) as [s2 [x|]]; cbn [fst] in Fs, Fa.
+        + match goal with |- context[mark_final ?W x] => destruct (Hmf W x) as (M1 & M2 & M3 & M4 & M5 & M6) end.
+          { apply (LiveI_frame (set_cs w1 s2)); auto. apply LiveI_cs; auto. }
+          split; [exact M1|]. split; [rewrite M2; unfold N in *; cbn; congruence|].
+          split; [intros k; rewrite M3; specialize (S3 k); unfold rem in *; cbn in *; lia|]. split; [rewrite M4; cbn; congruence|].
+          rewrite M5. cbn. split; [intros; discriminate|]. intros _ Hf. apply M6, Hf.
+        + split; [apply (LiveI_frame (set_cs w1 s2)); auto; apply LiveI_cs; auto|]. split; [unfold N in *; cbn; congruence|].
+          split; [intros k; specialize (S3 k); unfold rem in *; cbn in *; lia|]. split; [cbn; congruence|].
+          split; [|cbn; intros; discriminate]. intros _. split; [cbn; congruence|]. split.
+          * intros k Hk. unfold aw in Hk. cbn in Hk. rewrite (Fa k SQ) in Hk. rewrite <- A1. apply SM. exact Hk.
+          * intros j Hj Ha Hb. destruct (Hcov j Hj Ha) as [Hin' Ha']. specialize (Sp j Hin' Ha' Hb). unfold rem in *; cbn in *. lia.
+      - split; [apply (LiveI_frame w1); auto|]. split; [unfold N in *; cbn; congruence|].
+        split; [intros k; specialize (S3 k); unfold rem in *; cbn in *; lia|]. split; [cbn; congruence|].
+        split; [|cbn; intros; discriminate]. intros _. split; [cbn; congruence|]. split.
+        * intros k Hk. rewrite <- A1. apply SM. exact Hk.
+        * intros j Hj Ha Hb. destruct (Hcov j Hj Ha) as [Hin' Ha']. specialize (Sp j Hin' Ha' Hb). unfold rem in *; cbn in *. lia.
+      - match goal with |- context[mark_final ?W o] => destruct (Hmf W o) as (M1 & M2 & M3 & M4 & M5 & M6) end.
+        { apply (LiveI_frame (set_cs w1 (after_stop (cs w1)))); auto. apply LiveI_cs; auto. apply after_slots. }
+        split; [exact M1|]. split; [rewrite M2; unfold N in *; cbn; rewrite after_slots; congruence|].
+        split; [intros k; rewrite M3; specialize (S3 k); unfold rem in *; cbn in *; lia|]. split; [rewrite M4; cbn; congruence|].
+        rewrite M5. cbn. split; [intros; discriminate|]. intros _ Hf. apply M6, Hf.
+      - exfalso. exact (S5 w1 eq_refl).
+    Qed.
+  End Live.
+
   (* ------------- the wake-up bookkeeping is a function of the observable trace -------------
      The ghost fields of the world (g_fired, g_polled, g_lastpend, g_out, g_bad16, g_retpend, g_quiet) and the handle table are recomputed here
      from the trace alone by a fold [gfold]; [R] relates a world to the fold of its own trace and holds in every reachable state (selective
@@ -2573,6 +3049,16 @@ Section Scan.
     Proof.
       intros HI HF HR E. cbv zeta. intros Hr Hq Hi Ha. pose proof (ghost_is_trace w0 ops g0 HI HF HR E) as X.
       rewrite <- (R_polled _ _ _ X). apply (C20_generic w0 ops i HI); [rewrite (R_ret _ _ _ X); exact Hr|rewrite (R_quiet _ _ _ X); exact Hq|exact Hi|exact Ha].
+    Qed.
+    (* sibling progress with "has signalled since its last poll" / "has never been polled" read off the trace *)
+    Theorem progress_trace w0 ops g0 o j : Inv w0 -> FT w0 -> R None w0 g0 -> tr w0 = [] -> (o = OPollFresh \/ o = OPollSame) ->
+      let w := run_ops w0 ops in let g := gfold g0 (tr w) in
+      finished w = false -> dropped w = false -> j < N w -> aw w j = true -> (t_fired g j = true \/ t_polled g j = false) ->
+      exists pid u, tr (step_op w o) = tr w ++ EB pid :: u /\ (subpolled j u \/ (exists r, In (EEndR r) u) \/ In EEndX u).
+    Proof.
+      intros HI HF HR E Ho. cbv zeta. intros Hf Hd Hj Ha Hs. pose proof (ghost_is_trace w0 ops g0 HI HF HR E) as X.
+      apply (sibling_progress w0 ops o j HI Ho Hf Hd Hj Ha).
+      destruct Hs as [Hs|Hs]; [left; rewrite (R_fired _ _ _ X); exact Hs|right; rewrite (R_polled _ _ _ X); exact Hs].
     Qed.
     (* group mutations *)
     Lemma nth_app_false (l: list bool) m i : nth i (l ++ repeat false m) false = nth i l false.
